@@ -395,6 +395,42 @@ macro_rules! remove_sorted_list {
     };
 }
 
+/// The [`Uri`] the [default redirect](Extensions::with_uri_redirect) rewrites `uri` to:
+/// `<path>/` gets [`host::Options::folder_default`] appended and `<path>.`
+/// [`host::Options::extension_default`]. [`None`] if `uri` is left as it is.
+pub(crate) fn uri_redirect_target(uri: &Uri, options: &host::Options) -> Option<Uri> {
+    let append = if uri.path().ends_with('.') {
+        options.extension_default.as_deref().unwrap_or("html")
+    } else if uri.path().ends_with('/') {
+        options.folder_default.as_deref().unwrap_or("index.html")
+    } else {
+        return None;
+    };
+
+    let mut uri = uri.clone().into_parts();
+
+    let path = uri
+        .path_and_query
+        .as_ref()
+        .map_or("/", uri::PathAndQuery::path);
+    let query = uri
+        .path_and_query
+        .as_ref()
+        .and_then(uri::PathAndQuery::query);
+    let path_and_query = build_bytes!(
+        path.as_bytes(),
+        append.as_bytes(),
+        if query.is_none() { "" } else { "?" }.as_bytes(),
+        query.unwrap_or("").as_bytes()
+    );
+
+    // This is ok, we only added bytes from a String, which are guaranteed to be valid for a URI path
+    uri.path_and_query = Some(uri::PathAndQuery::from_maybe_shared(path_and_query).unwrap());
+
+    // Again ok, see ↑
+    Some(Uri::from_parts(uri).unwrap())
+}
+
 /// Contains all extensions.
 /// See [kvarn.org on extensions](https://kvarn.org/extensions/) for more info.
 #[must_use]
@@ -465,59 +501,7 @@ impl Extensions {
     /// See respective documentation for more info.
     pub fn with_uri_redirect(&mut self) -> &mut Self {
         self.add_prime(
-            prime!(request, host, _, {
-                enum Ending {
-                    Dot,
-                    Slash,
-                    Other,
-                }
-                impl From<&Uri> for Ending {
-                    fn from(uri: &Uri) -> Self {
-                        if uri.path().ends_with('.') {
-                            Self::Dot
-                        } else if uri.path().ends_with('/') {
-                            Self::Slash
-                        } else {
-                            Self::Other
-                        }
-                    }
-                }
-                let append = match Ending::from(request.uri()) {
-                    Ending::Other => return None,
-                    Ending::Dot => host.options.extension_default.as_deref().unwrap_or("html"),
-                    Ending::Slash => host
-                        .options
-                        .folder_default
-                        .as_deref()
-                        .unwrap_or("index.html"),
-                };
-
-                let mut uri = request.uri().clone().into_parts();
-
-                let path = uri
-                    .path_and_query
-                    .as_ref()
-                    .map_or("/", uri::PathAndQuery::path);
-                let query = uri
-                    .path_and_query
-                    .as_ref()
-                    .and_then(uri::PathAndQuery::query);
-                let path_and_query = build_bytes!(
-                    path.as_bytes(),
-                    append.as_bytes(),
-                    if query.is_none() { "" } else { "?" }.as_bytes(),
-                    query.unwrap_or("").as_bytes()
-                );
-
-                // This is ok, we only added bytes from a String, which are guaranteed to be valid for a URI path
-                uri.path_and_query =
-                    Some(uri::PathAndQuery::from_maybe_shared(path_and_query).unwrap());
-
-                // Again ok, see ↑
-                let uri = Uri::from_parts(uri).unwrap();
-
-                Some(uri)
-            }),
+            prime!(request, host, _, { uri_redirect_target(request.uri(), &host.options) }),
             Id::new(-100, "Expand . and /"),
         );
         self
